@@ -41,6 +41,9 @@ type SimNet struct {
 	sent            []*Msg                       // every message sent so far
 	emit            []iface.DirectChannelEmitter // per peer: the instance's payload emitter
 	publishToNobody bool                         // when true Peers() reports peers even if none (not used)
+	coreMode        bool                         // scenario flag ps=coreapi: stores subscribe through the library's pubsubcoreapi adapter
+	polls           map[string]int               // coreMode: membership polls per (peer, topic)
+	hidden          map[string]bool              // coreMode: (peer, other peer) pairs the peer's adapter does not see for the moment
 }
 
 func NewSimNet(ids []peer.ID) *SimNet {
@@ -204,10 +207,19 @@ func (t *simTopic) deliverMsg(ctx context.Context, payload []byte, barrier []byt
 			return false
 		}
 		if barrier != nil {
-			select {
-			case c <- &iface.EventPubSubMessage{Content: barrier}:
-			case <-ctx.Done():
-				return false
+			// through the library's adapter the message first sits in the adapter's buffered channel
+			// (128 slots): once 130 barriers have been taken in after it, the listener has finished
+			// with the message itself
+			k := 1
+			if t.net.coreMode {
+				k = 130
+			}
+			for i := 0; i < k; i++ {
+				select {
+				case c <- &iface.EventPubSubMessage{Content: barrier}:
+				case <-ctx.Done():
+					return false
+				}
 			}
 		}
 	}
